@@ -297,7 +297,10 @@ impl LevelManifest {
 			.max()
 			.unwrap_or(0);
 
-		if computed_max_seq != last_sequence {
+		// `last_sequence` only grows; compaction may discard the newest entries
+		// (e.g. a tombstone dropped at the bottom level), so the tables may
+		// legitimately top out below it - but never above it.
+		if computed_max_seq > last_sequence {
 			return Err(Error::LoadManifestFail(format!(
 				"Manifest last_sequence mismatch: stored={}, computed from tables={}",
 				last_sequence, computed_max_seq
